@@ -78,6 +78,10 @@ def check_step(ctx, step, res, ref, spec_lines, spec_meta):
                                                                            "exception": exc_name(res), "message": str(res)[:200]}))
         return "spurious-raise"
     d = deq_out(res)
+    if step.name == "linear" and isinstance(d, torch.Tensor) and isinstance(ref, torch.Tensor) and step.operands[0].ndim == 1 and d.dtype == ref.dtype \
+            and tuple(d.shape) == (1,) + tuple(ref.shape):
+        ctx.spec_failures.append(("C05:linear-1d-input-returns-2d", {"op": name, "got": list(d.shape), "want": list(ref.shape), "operands": [oc.enc(o)[:200] for o in step.operands]}))
+        return "differs"
     if isinstance(d, torch.Tensor) and isinstance(ref, torch.Tensor) and (d.shape != ref.shape or d.dtype != ref.dtype):
         ctx.spec_failures.append((f"C05:differs:shape-or-dtype:{sigbase}", {"op": name, "params": step.params, "got": [list(d.shape), str(d.dtype)], "want": [list(ref.shape), str(ref.dtype)],
                                                                         "operands": [oc.enc(o)[:200] for o in step.operands]}))
